@@ -55,6 +55,7 @@ class KernSpineImporter(SpineImporter):
 
         # self.listenerImporter = KernListenerImporter(token) # TODO ¿Por qué no va esto?
         # self.listenerImporter.start()
+        self.error_listener = ErrorListener(verbose=self.error_listener.verbose)  # errors of previous tokens must not leak
         lexer = kernSpineLexer(InputStream(encoding))
         lexer.removeErrorListeners()
         lexer.addErrorListener(self.error_listener)
